@@ -149,6 +149,13 @@ func decorations(b base, thorough bool) []decor {
 					ins(fdef{Name: n, Type: ty}, fmt.Sprintf("unexported:%s:%s@%s.%d", n, ty, s.Name, pos), extra)
 				}
 			}
+			// exported fields of unsupported types are ignored by default
+			for _, ty := range []string{"map[string]int", "interface{}", "chan int"} {
+				if !thorough && pos != 0 && pos != len(s.Fields) {
+					continue
+				}
+				ins(fdef{Name: "Unsup", Type: ty}, fmt.Sprintf("ignored:%s@%s.%d", ty, s.Name, pos), "")
+			}
 			dashTypes := types
 			for _, ty := range dashTypes {
 				extra := ""
@@ -175,13 +182,22 @@ func decorations(b base, thorough bool) []decor {
 				// pairs of decorations: an excluded field right next to the
 				// embedded struct (before / after it) and, in thorough, as the
 				// first / last field inside it
-				for _, ex := range []fdef{{Name: "Excl", Type: "int32", Tag: "-"}, {Name: "hidden", Type: "int32"}} {
+				for _, ex := range []fdef{{Name: "Excl", Type: "int32", Tag: "-"}, {Name: "hidden", Type: "int32"}, {Name: "Unsup", Type: "map[string]int"}} {
 					kind := "dash"
 					if ex.Tag == "" {
 						kind = "unexported"
 					}
+					if ex.Name == "Unsup" {
+						// an exported field of a type parquetgen does not support is
+						// ignored (-ignore, the default): inside an embedded struct it
+						// must not take the struct's columns with it
+						kind = "ignored"
+					}
 					for _, where := range []string{"before", "after", "first", "last"} {
-						if !thorough && (where == "first" || where == "last") {
+						if !thorough && (where == "first" || where == "last") && kind != "ignored" {
+							continue
+						}
+						if !thorough && kind == "ignored" && (where == "before" || where == "after") {
 							continue
 						}
 						sp := cloneStructs(st)
@@ -532,7 +548,7 @@ func Main() {
 		ID:    "C14",
 		Level: "exploration",
 		Rule: "program enumeration: for each base struct definition (mini, three nested shapes, document, person without embedding) every insertion, at every field position of every struct of the shape, of (i) an unexported field (names hidden/x/_x/non-ASCII lower case) or (ii) an exported field tagged parquet:\"-\", over a menu of Go types (primitives, pointers, slices, arrays, maps, channels, funcs, interfaces, inline and named structs), " +
-			"and (iii) every replacement of a contiguous run of sibling fields by an embedded struct (also two deep and split), every pair of identical runs in two different structs replaced by one shared embedded type (the same struct embedded at two places of the tree), every embedding combined with an excluded field (dash-tagged or unexported) directly before or after the embedded struct (thorough: also first or last inside it), and (iv) grouped declarations: an unexported name declared together with an exported one (F, hidden T) and adjacent same-typed fields declared as one group (A, B T). Each decorated program is generated, compiled and run next to its base: for every value with <= s constructor nodes (and pairs) the two writers' files must be byte-identical (excluded fields set to garbage), and reading into fresh decorated structs must leave excluded fields zero and return the values. " +
+			"and (iii) every replacement of a contiguous run of sibling fields by an embedded struct (also two deep and split), every pair of identical runs in two different structs replaced by one shared embedded type (the same struct embedded at two places of the tree), every embedding combined with an excluded field (dash-tagged or unexported) directly before or after the embedded struct (thorough: also first or last inside it), exported fields of unsupported types (ignored by default) in a struct and inside an embedded struct, and (iv) grouped declarations: an unexported name declared together with an exported one (F, hidden T) and adjacent same-typed fields declared as one group (A, B T). Each decorated program is generated, compiled and run next to its base: for every value with <= s constructor nodes (and pairs) the two writers' files must be byte-identical (excluded fields set to garbage), and reading into fresh decorated structs must leave excluded fields zero and return the values. " +
 			"quick uses one name with seven types plus every name with one type; thorough the full product. distinct = decorated program",
 		Assumptions: []string{
 			"one decoration per program, except the pairs (embedding, excluded field next to or inside the embedded struct)",
